@@ -49,7 +49,7 @@ type (
 		respVersion     int
 		noEvict         bool
 		multiInProgress bool
-		execDsc         *dataStoreCommand // while this connection runs EXEC: the command that owns its database
+		execOwned       map[*dataStore]*dataStoreCommand // while this connection runs EXEC: the commands that own its databases
 		libName         string
 		libVer          string
 	}
